@@ -496,14 +496,32 @@ Section Exec.
   | ex_assert : forall g fn i m f h fh j,
       executed g -> PM.find g idx = Some fn -> In i (f_instrs fn) -> is_makeiface T i = true ->
       In (m, f) (i_meths i) ->
-      executed h -> PM.find h idx = Some fh -> In j (f_instrs fh) -> is_typeassert T j = true -> In m (i_names j) ->
+      executed h -> PM.find h idx = Some fh -> In j (f_instrs fh) -> is_typeassert T j = true ->
+      In (m, f) (i_meths j) -> In m (i_names j) ->
       executed f.
+
+  Lemma assert_methods_in : forall j m f,
+      is_typeassert T j = true -> In (m, f) (i_meths j) -> In m (i_names j) -> In f (assert_methods T j).
+  Proof.
+    intros j m f Hj Hmf Hm. unfold assert_methods. rewrite Hj.
+    destruct (i_names j) as [|n ns] eqn:En; [contradiction|].
+    apply in_map_iff. exists (m, f). split; [reflexivity|]. apply filter_In. split; [assumption|].
+    simpl fst. apply lmem_In. assumption.
+  Qed.
+
+  Lemma assert_fns_in : forall out h fh j m f,
+      In h out -> PM.find h idx = Some fh -> In j (f_instrs fh) -> is_typeassert T j = true ->
+      In (m, f) (i_meths j) -> In m (i_names j) -> In f (assert_fns T idx out).
+  Proof.
+    intros out h fh j m f Hh Hf Hj Hta Hmf Hm. unfold assert_fns. apply in_flat_map. exists h. split; [assumption|].
+    rewrite Hf. apply in_flat_map. exists j. split; [assumption|]. eapply assert_methods_in; eassumption.
+  Qed.
 
   Lemma cert_parts : forall out,
       check_cert T idx rts out = true ->
       (forall r, In r rts -> In r out)
       /\ (forall g fn i, In g out -> PM.find g idx = Some fn -> In i (f_instrs fn) ->
-            instr_gaps T (pset_of out) (pset_of (assert_names T idx out)) g fn i = []).
+            instr_gaps T (pset_of out) (pset_of (assert_fns T idx out)) g fn i = []).
   Proof.
     intros out H. unfold check_cert in H. destruct (cert_gaps T idx rts out) eqn:E; [|discriminate].
     unfold cert_gaps in E. apply app_eq_nil in E. destruct E as [E1 E2]. split.
@@ -534,9 +552,8 @@ Section Exec.
     - specialize (Hg g fn i IHexecuted1 H0 H1). unfold instr_gaps in Hg. apply app_eq_nil in Hg. destruct Hg as [_ Hg].
       rewrite H2 in Hg. pose proof (flat_map_nil _ _ _ _ Hg (m, f) H3) as Hn. simpl in Hn.
       destruct (pmem f (pset_of out)) eqn:Em; [apply pmem_pset_of; assumption|].
-      assert (Ha : pmem m (pset_of (assert_names T idx out)) = true).
-      { apply pmem_pset_of. unfold assert_names. apply in_flat_map. exists h. split; [assumption|].
-        rewrite H5. apply in_flat_map. exists j. split; [assumption|]. rewrite H7. assumption. }
+      assert (Ha : pmem f (pset_of (assert_fns T idx out)) = true).
+      { apply pmem_pset_of. eapply assert_fns_in; eassumption. }
       revert Hn. destruct (i_names i) as [|n ns]; intro Hn; [discriminate|].
       change (if (m =? n)%positive then true else lmem m ns) with (lmem m (n :: ns)) in Hn.
       destruct (lmem m (n :: ns)); [discriminate|]. rewrite Ha in Hn. discriminate.
@@ -590,7 +607,7 @@ Section Sound.
   Theorem reach_gaps_excused : forall except P s fuel out,
       operand_cover_except T except = true -> wf_ops T P = true ->
       reach_prog T P s fuel = Done out ->
-      forall g, In g (cert_gaps T (index P) (roots s P) out) -> gap_excused except true g = true.
+      forall g, In g (cert_gaps T (index P) (roots s P) out) -> gap_excused except (negb (assert_case T)) g = true.
   Proof.
     intros except P s fuel out Hcov Hwf Hreach gp Hgp.
     pose proof (reach_roots _ _ _ _ Hreach) as Hroots.
@@ -629,8 +646,30 @@ Section Sound.
           destruct (lmem m (n :: ns)) eqn:El.
           -- exfalso. apply Hneed. unfold needed_methods. rewrite En.
              apply in_map_iff. exists (m, f). split; auto. apply filter_In. split; auto.
-          -- destruct (pmem m (pset_of (assert_names T (index P) out))); [|contradiction].
-             destruct Hgp as [<-|[]]. reflexivity.
+          -- destruct (pmem f (pset_of (assert_fns T (index P) out))) eqn:Ea; [|contradiction].
+             destruct Hgp as [<-|[]]. unfold gap_excused. simpl.
+             destruct (assert_case T) eqn:Eac; [exfalso|reflexivity].
+             apply pmem_pset_of in Ea. unfold assert_fns in Ea. apply in_flat_map in Ea.
+             destruct Ea as (h & Hh & Ea). destruct (PM.find h (index P)) as [fh|] eqn:Hfh; [|contradiction].
+             apply in_flat_map in Ea. destruct Ea as (j & Hj & Ea).
+             unfold assert_methods in Ea. destruct (is_typeassert T j) eqn:Eta; [|contradiction].
+             assert (Hfj : has_feat T j (ft_iface T) = true).
+             { unfold has_feat. unfold is_typeassert in Eta. apply Pos.eqb_eq in Eta. rewrite Eta. exact Eac. }
+             assert (Hnj : In f (needed_methods j)).
+             { unfold needed_methods. destruct (i_names j); [contradiction|assumption]. }
+             pose proof (iface_callee T _ _ _ _ _ Hfh Hj Hfj Hnj) as Hc.
+             apply (Hclosed h Hh) in Hc. apply pmem_pset_of in Hc. congruence.
+  Qed.
+
+  (** weaker form: whatever the TypeAssert case does *)
+  Corollary reach_gaps_excused_weak : forall except P s fuel out,
+      operand_cover_except T except = true -> wf_ops T P = true ->
+      reach_prog T P s fuel = Done out ->
+      forall g, In g (cert_gaps T (index P) (roots s P) out) -> gap_excused except true g = true.
+  Proof.
+    intros except P s fuel out Hcov Hwf Hreach g Hg.
+    pose proof (reach_gaps_excused _ _ _ _ _ Hcov Hwf Hreach g Hg) as H.
+    unfold gap_excused in *. destruct (g_kind g) as [[p|p|]|[[p|p|]|[p|p|]|]|]; auto.
   Qed.
 
   (** conservativeness: with full operand coverage (or when no reported function uses an exempted operand field for a
@@ -643,7 +682,7 @@ Section Sound.
       forall f, executed T (index P) (roots s P) f -> In f out.
   Proof.
     intros except P s fuel out Hcov Hwf Hreach Hnone. apply cert_sound.
-    pose proof (reach_gaps_excused _ _ _ _ _ Hcov Hwf Hreach) as Hexc.
+    pose proof (reach_gaps_excused_weak _ _ _ _ _ Hcov Hwf Hreach) as Hexc.
     unfold check_cert. destruct (cert_gaps T (index P) (roots s P) out) as [|g gs]; [reflexivity|exfalso].
     assert (Hin : In g (g :: gs)) by (left; reflexivity).
     pose proof (Hexc g Hin) as H1. pose proof (Hnone g Hin) as H2. congruence.
@@ -662,6 +701,19 @@ Section Sound.
     destruct (Pos.eq_dec (g_kind g) 4) as [E|E]; [contradiction|].
     destruct (g_kind g) as [[p|p|]|[[p|p|]|[p|p|]|]|]; try reflexivity.
     exfalso. apply E. reflexivity.
+  Qed.
+
+  (** conservativeness without side condition: full operand coverage and the TypeAssert case *)
+  Theorem reach_sound_full : forall P s fuel out,
+      operand_cover T = true -> assert_case T = true -> wf_ops T P = true ->
+      reach_prog T P s fuel = Done out ->
+      forall f, executed T (index P) (roots s P) f -> In f out.
+  Proof.
+    intros P s fuel out Hcov Hac Hwf Hreach. apply cert_sound.
+    pose proof (reach_gaps_excused [] _ _ _ _ Hcov Hwf Hreach) as Hexc. rewrite Hac in Hexc. simpl in Hexc.
+    unfold check_cert. destruct (cert_gaps T (index P) (roots s P) out) as [|g gs]; [reflexivity|exfalso].
+    specialize (Hexc g (or_introl eq_refl)). unfold gap_excused in Hexc.
+    destruct (g_kind g) as [[p|p|]|[[p|p|]|[p|p|]|]|]; simpl in Hexc; discriminate.
   Qed.
 
   (** *** static call graph: direct calls and closure creations *)
